@@ -29,6 +29,9 @@ def gen_cases(tier, seed):
     n = 350 if tier == "quick" else 5000
     for i in range(n):
         yield {"kind": "pull", "impl": ("sync", "async")[i % 2], "seed": "%d:l%d" % (seed, i)}
+    # a directory push: earlier files accepted (the OKAY may carry a message), a later file rejected
+    for i in range(60 if tier == "quick" else 900):
+        yield {"kind": "pushdir", "impl": ("sync", "async")[i % 2], "seed": "%d:d%d" % (seed, i)}
     n = 200 if tier == "quick" else 3000
     for i in range(n):
         yield {"kind": "wrong", "impl": ("sync", "async")[i % 2], "seed": "%d:w%d" % (seed, i), "which": i // 2}
@@ -42,6 +45,47 @@ def reason_matches(exc, reason, decoded):
     if isinstance(a0, (bytes, bytearray)):
         return bytes(a0) == reason
     return text in str(a0) or repr(reason) in str(a0)
+
+
+def run_pushdir(case, rng, sess, plan, reason, rclass, stats):
+    import os
+    import shutil
+    import tempfile
+    viol = []
+    tmp = tempfile.mkdtemp(prefix="verif-c10-", dir=os.environ.get("VERIF_TMP", "/tmp"))
+    try:
+        names = ["f%d" % k for k in range(rng.randint(2, 4))]
+        for nm in names:
+            with open(os.path.join(tmp, nm), "wb") as f:
+                f.write(scen.blob(case["seed"] + nm, rng.choice([0, 10, 3000, 9000])))
+        bad = rng.choice(names)
+        point = rng.choice(["send", "done", ("data", 1)])
+        if point == ("data", 1):
+            with open(os.path.join(tmp, bad), "wb") as f:
+                f.write(scen.blob(case["seed"] + bad, rng.choice([10, 3000])))       # (at least one DATA record, or the FAIL point is never reached)
+        plan.send_fail[("/dd/" + bad).encode()] = (point, reason)
+        if rng.random() < 0.6:
+            # the files the device accepts are acknowledged with an OKAY that carries a message (its length field is not always 0)
+            plan.okay_message = rng.choice([b"ok", b"OKAY\0\0\0\0", b"FAIL\x02\0\0\0no", b"stored as /dd/x", b"\0\0\0\0\0\0\0\0"])
+            stats["okay_with_message"] = 1
+        sess.sim.scripts[b"shell:mkdir /dd"] = []
+        order = os.listdir(tmp)
+        out = sess.call("push", tmp, "/dd", mtime=5)
+        stats["push_fails"] += 1
+        stats["dir_pushes"] = 1
+        where = "push of a directory (%s in this order), device FAILs %s at %r, OKAY message %r, reason %r" % (order, bad, point, plan.okay_message, reason[:30])
+        if out.ok:
+            viol.append({"mechanism": "returned-normally", "detail": where + ": push returned as if it had succeeded"})
+        elif out.exc_name() in ("AdbTimeoutError", "TcpTimeoutException"):
+            viol.append({"mechanism": "timeout-instead-of-failure", "detail": where + ": raised %s" % out.brief(100)})
+        elif out.exc_name() != "PushFailedError":
+            viol.append({"mechanism": "wrong-exception", "detail": where + ": raised %s, expected PushFailedError" % out.brief(120)})
+        elif not reason_matches(out.exc, reason, False):
+            viol.append({"mechanism": "reason-lost", "detail": where + ": PushFailedError%r does not carry the device's message" % (out.exc.args,)})
+        sig = "pushdir|%s|%d|%s|%d|%s" % (case["impl"], order.index(bad), point if isinstance(point, str) else "data", rclass, bool(plan.okay_message))
+        return {"sig": sig, "violations": viol[:3], "stats": stats, "sample": {"case": case, "where": where, "outcome": out.brief(100)} if case["seed"].endswith("d3") else None}
+    finally:
+        shutil.rmtree(tmp, ignore_errors=True)
 
 
 def run_case(case):
@@ -76,18 +120,30 @@ def run_case(case):
         reason = rng.choice(REASONS)
         rclass = REASONS.index(reason)
         plan.split_mode = rng.choice(["whole", "whole", "random", "bytes1" if len(reason) < 64 else "random"])
+        # a slow device: its reply comes in small WRTEs 0.4 s apart; every single wait stays below the 1 s limits, the whole failure record takes longer
+        slow_dev = kind in ("push", "pull") and not slow_send and len(reason) < 64 and rng.random() < 0.2
+        tkw = {}
+        if slow_dev:
+            sess.sim.wrte_delay = 0.4
+            plan.split_mode = "list"
+            plan.split_sizes = [rng.choice([3, 4, 5, 8, 11])]
+            plan.hold_fail = False
+            tkw = {"read_timeout_s": 1.0, "transport_timeout_s": 0.9}
+            stats["slow_devices"] = 1
+        if kind == "pushdir":
+            return run_pushdir(case, rng, sess, plan, reason, rclass, stats)
         if kind == "push":
             chunk = min(65536, dims["maxdata"] // 2)
             nchunks = rng.choice([0, 1, 2, 3, 5, 8])
             size = max(0, nchunks * chunk - rng.choice([0, 1, 17]))
             point = rng.choice(["send", "done"] + ([("data", rng.randint(1, max(1, nchunks)))] if nchunks else []))
             plan.send_fail[b"/fail"] = (point, reason)
-            plan.hold_fail = rng.random() < 0.3
+            plan.hold_fail = rng.random() < 0.3 and not slow_dev
             if slow_send:
                 plan.early_reply = True        # the FAIL may overtake the OKAY of the WRTE that provoked it
                 stats["slow_sends"] = 1
             n0 = len(sess.sim.all_streams)
-            out = sess.call("push", io.BytesIO(scen.blob(case["seed"], size)), "/fail", mtime=5)
+            out = sess.call("push", io.BytesIO(scen.blob(case["seed"], size)), "/fail", mtime=5, **tkw)
             stats["push_fails"] += 1
             st = [s for s in sess.sim.all_streams[n0:] if s.dest == b"sync:"][0]
             stats["max_host_wrtes"] = st.host_wrtes
@@ -114,7 +170,7 @@ def run_case(case):
                 viol.append({"mechanism": "reason-lost", "detail": where + ": PushFailedError%r does not carry the device's message" % (out.exc.args,)})
             sig = "push|%s|%s|%d|%s|%d" % (case["impl"], point if isinstance(point, str) else "data", min(st.host_wrtes, 6), pos, rclass)
         elif kind == "pull":
-            size = rng.choice([0, 10, 5000, 70000, 140000])
+            size = rng.choice([0, 10, 5000, 70000, 140000]) if not slow_dev else rng.choice([0, 10])
             k = rng.choice([0, 0, 1, 2])
             content = scen.blob(case["seed"], size)
             reply = bytearray()
@@ -127,12 +183,14 @@ def run_case(case):
                 recs += 1
             reply += wire.sync_fail(reason)
             plan.recv_raw[b"/gone"] = bytes(reply)
-            if len(reply) > 400 and plan.split_mode == "bytes1":
+            if slow_dev:
+                pass
+            elif len(reply) > 400 and plan.split_mode == "bytes1":
                 plan.split_mode = "random"
             dest = io.BytesIO()
             cb = scen.make_callback(case["impl"], "ok", []) if rng.random() < 0.3 else None
             plan.stats[b"/gone"] = (0o100644, size, 3)
-            out = sess.call("pull", "/gone", dest, progress_callback=cb)
+            out = sess.call("pull", "/gone", dest, progress_callback=cb, **tkw)
             stats["pull_fails"] += 1
             where = "pull: device sends %d DATA records then FAIL(%r) split=%s" % (recs, reason[:30], plan.split_mode)
             if out.ok:
@@ -172,7 +230,7 @@ def run_case(case):
             sig = "wrong|%s|%s|%s" % (case["impl"], "pull" if w % 2 == 0 else "push", wire.SYNC_NAMES[id_])
         dt = sess.clock.now() - t0
         stats["max_virtual_s"] = round(dt, 6)
-        if dt > 1.0 and not viol and not slow_send:
+        if dt > 1.0 and not viol and not slow_send and not slow_dev:
             viol.append({"mechanism": "slow-failure", "detail": "%s: %.2f virtual seconds passed before the failure surfaced (timeouts are 10 s)" % (where, dt)})
         sample = {"case": case, "where": where, "outcome": out.brief(100)} if case["seed"][-1] == "3" and case["seed"][-2] in "pwl" else None
         return {"sig": sig, "violations": viol[:3], "stats": stats, "sample": sample}
